@@ -1,6 +1,260 @@
-import Srctools.Model.C08
+import Srctools.Proofs.C08
 import Srctools.Gen.C08
-/-! C08 property theorems (placeholder while the proofs are being written). -/
+/-!
+# C08 — ids handed out inside one VMF are unique per kind and never reused while live
+
+Property theorems only.  The model is `lean/Srctools/Model/C08.lean` (id manager, fixup index
+table, object life cycle with reference-counting collection), run under the release sites that
+`tools/gen_c08.py` extracts from `/repo/src/srctools/vmf.py` (`Gen.C08.cfg`).
+-/
 namespace C08
-theorem C08_gen_cfg_known : Gen.C08.cfg.discardGuard = Gen.C08.cfg.discardGuard := rfl
+
+/-! ## obligations on the current source -/
+
+/-- OBLIGATION: the source releases an entity's id and its node id in one place only
+(`remove_ent` releases nothing) and `IDMan.discard` never lowers `search_pos` below 1. -/
+theorem C08_gen_cfg :
+    Gen.C08.cfg.removeEntDiscardsEntId = false ∧ Gen.C08.cfg.removeEntDiscardsNodeId = false ∧
+      Gen.C08.cfg.discardGuard = true := by decide
+
+/-- OBLIGATION: every id-manager call of vmf.py is one the model knows (no code 999), all the
+calls the model executes unconditionally are there, exactly once each. -/
+theorem C08_gen_sites :
+    Gen.C08.siteCodes.filter (· < 20) = [1, 2, 3, 4, 5, 6, 7, 8, 9, 10, 11] ∧
+      Gen.C08.siteCodes.all (· < 100) = true := by decide
+
+/-! ## the id manager -/
+
+/-- **Fresh.** Whatever is asked for, `get_id` returns an id that is not in use and is positive,
+and it finds it either immediately (the desired id) or within `|used| + 1` probes upward from
+`search_pos` (so the `while True` loop terminates). -/
+theorem C08_fresh (m : IDMan) (desired : Int) (hm : Hint m) :
+    (m.getId desired).1 ∉ m.used ∧ 0 < (m.getId desired).1 ∧
+      (∀ x, x ∈ (m.getId desired).2.used ↔ x = (m.getId desired).1 ∨ x ∈ m.used) ∧
+      ((m.getId desired).1 = desired ∨
+        (m.searchPos ≤ (m.getId desired).1 ∧ (m.getId desired).1 ≤ m.searchPos + m.used.length)) :=
+  ⟨(getId_spec m desired hm).1, (getId_spec m desired hm).2.1, (getId_spec m desired hm).2.2.2,
+    getId_probes m desired⟩
+
+/-- one step of an id-manager script: `get_id(x)` or `discard(x)`. -/
+def manStep (guard : Bool) (m : IDMan) (op : Bool × Int) : IDMan :=
+  if op.1 then (m.getId op.2).2 else m.discard guard op.2
+
+/-- **Hint invariant.** With the guarded `discard` (the current source) every script of
+`get_id` / `discard` calls with arbitrary arguments keeps: `1 ≤ search_pos` and every id in
+`1 .. search_pos-1` is in use. -/
+theorem C08_hint (script : List (Bool × Int)) : Hint (script.foldl (manStep true) IDMan.empty) := by
+  suffices h : ∀ m, Hint m → Hint (script.foldl (manStep true) m) from h _ hint_empty
+  induction script with
+  | nil => intro m h; exact h
+  | cons op rest ih =>
+    intro m h
+    apply ih
+    unfold manStep
+    split
+    · exact (getId_spec m op.2 h).2.2.1
+    · exact discard_hint true m op.2 h (Or.inl rfl)
+
+/-- Without the guard the invariant survives exactly the discards of positive numbers. -/
+theorem C08_hint_unguarded (m : IDMan) (e : Int) (hm : Hint m) (he : 0 < e) :
+    Hint (m.discard false e) := discard_hint false m e hm (Or.inr he)
+
+/-- …and `discard(-1)` on the unguarded manager (what `Solid.__del__` does after a failed
+constructor) makes the next `get_id()` return `-1`: the defect fixed by the guard. -/
+theorem C08_unguarded_nonpositive :
+    ((IDMan.empty.discard false (-1)).getId (-1)).1 = -1 ∧
+    ((IDMan.empty.discard true (-1)).getId (-1)).1 = 1 := by decide +kernel
+
+example : Hint ([(true, 5), (true, -1), (false, 1), (false, -7), (true, 0)].foldl (manStep true) IDMan.empty) :=
+  C08_hint _
+
+/-! ## histories -/
+
+/-- **Unique, positive, registered — for every history.** Under the release sites of the
+current source (`c.Sound`, see `C08_gen_cfg`), after ANY sequence of operations (creation with
+arbitrary desired ids, add/remove, copies within and across maps, dropping references with
+reference-counting destruction, `nodeid` set/delete/pop, parsing documents with colliding ids,
+fixup edits, a failing brush constructor):
+* two different live objects of the same kind in the same map have different ids;
+* every live object's id is positive and registered in its manager;
+* two different entities of one map never denote the same `nodeid` number, which is positive
+  and registered;
+* the replaceNN indexes of every entity's fixup table are pairwise distinct. -/
+theorem C08_unique (c : Cfg) (hc : c.Sound) (ops : List Op) :
+    let s := run c ops
+    (∀ h1 h2 o1 o2, s.objs h1 = some o1 → s.objs h2 = some o2 → o1.alive = true → o2.alive = true →
+        o1.kind = o2.kind → o1.map = o2.map → h1 ≠ h2 → o1.id ≠ o2.id) ∧
+    (∀ h o, s.objs h = some o → o.alive = true → 0 < o.id ∧ o.id ∈ (s.mans o.map o.kind).used) ∧
+    (∀ h1 h2 o1 o2 n, s.objs h1 = some o1 → s.objs h2 = some o2 → o1.map = o2.map → h1 ≠ h2 →
+        o1.node = some n → o2.node ≠ some n) ∧
+    (∀ h o n, s.objs h = some o → o.node = some n → 0 < n ∧ n ∈ (s.mans o.map .node).used) ∧
+    (∀ h o, s.objs h = some o → (o.fix.map (·.2)).Nodup) := by
+  have hi := run_inv c hc ops
+  refine ⟨?_, ?_, ?_, ?_, ?_⟩
+  · intro h1 h2 o1 o2 ho1 ho2 ha1 ha2 hk hm hne hid
+    exact hne (hi.uniq _ _ _ _ ho1 ho2 ha1 ha2 hk hm hid)
+  · intro h o ho ha
+    exact ⟨(hi.mem _ _ ho ha).2, (hi.mem _ _ ho ha).1⟩
+  · intro h1 h2 o1 o2 n ho1 ho2 hm hne hn1 hn2
+    exact hne (hi.nuniq _ _ _ _ _ ho1 ho2 hn1 hn2 hm)
+  · intro h o n ho hn
+    exact ⟨(hi.nmem _ _ _ ho hn).2, (hi.nmem _ _ _ ho hn).1⟩
+  · intro h o ho
+    exact (hi.fix _ _ ho).1
+
+/-- the same for the model run under the extracted configuration (what the driver executes). -/
+theorem C08_unique_current (ops : List Op) :
+    let s := run Gen.C08.cfg ops
+    (∀ h1 h2 o1 o2, s.objs h1 = some o1 → s.objs h2 = some o2 → o1.alive = true → o2.alive = true →
+        o1.kind = o2.kind → o1.map = o2.map → h1 ≠ h2 → o1.id ≠ o2.id) ∧
+    (∀ h o, s.objs h = some o → o.alive = true → 0 < o.id) :=
+  ⟨(C08_unique Gen.C08.cfg C08_gen_cfg ops).1, fun h o ho ha => ((C08_unique Gen.C08.cfg C08_gen_cfg ops).2.1 h o ho ha).1⟩
+
+theorem mem_aliveObjs (s : St) (p : Nat × Obj) (hp : p ∈ aliveObjs s) :
+    s.objs p.1 = some p.2 ∧ p.2.alive = true := by
+  unfold aliveObjs at hp
+  rcases List.mem_filterMap.mp hp with ⟨h, _, hh⟩
+  cases ho : s.objs h with
+  | none => simp [ho] at hh
+  | some o =>
+    simp only [ho] at hh
+    split at hh
+    · cases hh; exact ⟨ho, by assumption⟩
+    · cases hh
+
+/-- the decidable scans used by the witnesses below find nothing in any reachable state. -/
+theorem C08_unique_scan (c : Cfg) (hc : c.Sound) (ops : List Op) :
+    hasDupLive (run c ops) = false ∧ hasDupNode (run c ops) = false ∧ hasNonPos (run c ops) = false := by
+  have hi := run_inv c hc ops
+  refine ⟨?_, ?_, ?_⟩
+  · cases hb : hasDupLive (run c ops) with
+    | false => rfl
+    | true =>
+      exfalso
+      unfold hasDupLive at hb
+      simp only [List.any_eq_true, Bool.and_eq_true, bne_iff_ne, ne_eq, beq_iff_eq] at hb
+      rcases hb with ⟨a, ha, b, hb, ⟨⟨⟨hne, hk⟩, hm⟩, hid⟩⟩
+      have ha' := mem_aliveObjs _ _ ha
+      have hb' := mem_aliveObjs _ _ hb
+      exact hne (hi.uniq _ _ _ _ ha'.1 hb'.1 ha'.2 hb'.2 hk hm hid)
+  · cases hb : hasDupNode (run c ops) with
+    | false => rfl
+    | true =>
+      exfalso
+      unfold hasDupNode at hb
+      simp only [List.any_eq_true, Bool.and_eq_true, bne_iff_ne, ne_eq, beq_iff_eq] at hb
+      rcases hb with ⟨a, ha, b, hb, ⟨⟨⟨hne, hm⟩, hsome⟩, hnode⟩⟩
+      have ha' := mem_aliveObjs _ _ ha
+      have hb' := mem_aliveObjs _ _ hb
+      cases hn : a.2.node with
+      | none => simp [hn] at hsome
+      | some n =>
+        exact hne (hi.nuniq _ _ _ _ n ha'.1 hb'.1 hn (by rw [← hnode, hn]) hm)
+  · cases hb : hasNonPos (run c ops) with
+    | false => rfl
+    | true =>
+      exfalso
+      unfold hasNonPos at hb
+      simp only [List.any_eq_true, Bool.or_eq_true, decide_eq_true_eq] at hb
+      rcases hb with ⟨a, ha, hbad⟩
+      have ha' := mem_aliveObjs _ _ ha
+      rcases hbad with hbad | hbad
+      · have := (hi.mem _ _ ha'.1 ha'.2).2; omega
+      · cases hn : a.2.node with
+        | none => simp [hn] at hbad
+        | some n =>
+          simp only [hn, decide_eq_true_eq] at hbad
+          have := (hi.nmem _ _ _ ha'.1 hn).2; omega
+
+/-- non-vacuity: a history that recycles ids (remove, drop, re-create with colliding desired ids,
+copy across maps, node ids) — `C08_unique` applies to it like to any other. -/
+def sampleHistory : List Op :=
+  [.newmap, .newmap, .ent 0 0 5 (.int 3) [] [(1, 1), (2, 1)], .addent 0, .rment 0,
+   .ent 1 0 5 (.int 3) [] [], .addent 1, .drop 0, .ent 2 0 5 .absent [] [], .copy 3 1 (-1) (some 1),
+   .setnode 1 (.int 3), .side 4 0 7, .solid 5 0 7 [4], .copy 6 5 7 none, .drop 5, .drop 4, .side 7 0 7]
+
+example : ((aliveObjs (run Gen.C08.cfg sampleHistory)).map (fun p => (p.2.kind.code, p.2.map, p.2.id, p.2.node)))
+    = [(0, 0, 1, none), (0, 1, 1, none), (0, 0, 2, some 1), (0, 0, 5, none), (0, 1, 2, some 1), (2, 0, 1, none),
+       (1, 0, 1, none), (2, 0, 7, none)] := by
+  decide +kernel
+
+/-! ## the defects: each part of `Cfg.Sound` is necessary -/
+
+/-- release sites of the source before the repairs. -/
+def origCfg : Cfg :=
+  { removeEntDiscardsEntId := true, removeEntDiscardsNodeId := true, discardGuard := false,
+    addEntAllocatesNode := true, popReleasesNode := false, parseKeepsPlaceholder := true,
+    removeSpawnRaises := false }
+
+/-- **Double release (the defect).** With `remove_ent` releasing the entity id *and*
+`Entity.__del__` releasing it again: create a, add, remove (1st release); create b (gets a's id),
+add; drop the last reference to a (2nd release frees b's live id); create c, add → b and c are both
+in `vmf.entities` with the same id. -/
+def doubleReleaseHistory : List Op :=
+  [.newmap, .ent 0 0 (-1) .absent [] [], .addent 0, .rment 0, .ent 1 0 (-1) .absent [] [], .addent 1,
+   .drop 0, .ent 2 0 (-1) .absent [] [], .addent 2]
+
+theorem C08_double_release :
+    hasDupLive (run origCfg doubleReleaseHistory) = true ∧
+    (((run origCfg doubleReleaseHistory).ents 0).map
+        (fun h => ((run origCfg doubleReleaseHistory).objs h).map (·.id))) = [some 2, some 2] ∧
+    hasDupLive (run { origCfg with removeEntDiscardsEntId := false } doubleReleaseHistory) = false := by
+  decide +kernel
+
+/-- the same without any garbage collection: a second `remove()` of the same entity. -/
+theorem C08_double_remove :
+    hasDupLive (run origCfg [.newmap, .ent 0 0 (-1) .absent [] [], .addent 0, .rment 0,
+      .ent 1 0 (-1) .absent [] [], .addent 1, .rment 0, .ent 2 0 (-1) .absent [] [], .addent 2]) = true := by
+  decide +kernel
+
+/-- **Node ids.** `remove_ent` released the node id but the entity kept its `nodeid` key: assigning
+the key later released the number again — by then owned by another live entity. -/
+def nodeHistory : List Op :=
+  [.newmap, .ent 0 0 (-1) (.int 5) [] [], .addent 0, .rment 0, .ent 1 0 (-1) (.int 2) [] [], .addent 1,
+   .setnode 0 (.int 9), .ent 2 0 (-1) (.int 2) [] [], .addent 2]
+
+theorem C08_node_release :
+    hasDupNode (run origCfg nodeHistory) = true ∧
+    hasDupNode (run { origCfg with removeEntDiscardsNodeId := false } nodeHistory) = false := by
+  decide +kernel
+
+/-- **Non-positive ids.** Unguarded `discard(-1)` after a failing brush constructor. -/
+theorem C08_nonpositive :
+    hasNonPos (run origCfg [.newmap, .failsolid 0, .solid 0 0 (-1) []]) = true ∧
+    hasNonPos (run { origCfg with discardGuard := true } [.newmap, .failsolid 0, .solid 0 0 (-1) []]) = false := by
+  decide +kernel
+
+/-! ## fixup indexes -/
+
+/-- one edit of a fixup table: set (`true`) or delete (`false`) a variable. -/
+def fxStep (t : Fix) (op : Bool × Nat) : Fix := if op.1 then fxSet t op.2 else fxDel t op.2
+
+/-- **Fixup indexes.** Whatever list of (variable, index) pairs `EntityFixup.__init__` is given
+(duplicated indexes, duplicated variables, zero) and whatever sets/deletes follow, the replaceNN
+indexes of the table are pairwise distinct, so are its variables, and if the given indexes were
+positive then all indexes are. `copy_values()` + `__init__` (what `Entity.copy` does) is the case
+`l := t`. -/
+theorem C08_fixup (l : List (Nat × Int)) (script : List (Bool × Nat)) :
+    let t := script.foldl fxStep (fxInit l)
+    (t.map (·.2)).Nodup ∧ (t.map (·.1)).Nodup ∧ ((∀ e ∈ l, 0 < e.2) → ∀ e ∈ t, 0 < e.2) := by
+  have key : ∀ (sc : List (Bool × Nat)) (t : Fix), FxInv t → FxInv (sc.foldl fxStep t) ∧ (FxPos t → FxPos (sc.foldl fxStep t)) := by
+    intro sc
+    induction sc with
+    | nil => intro t h; exact ⟨h, fun hp => hp⟩
+    | cons op rest ih =>
+      intro t h
+      have h1 : FxInv (fxStep t op) := by
+        unfold fxStep; split
+        · exact fxSet_inv _ _ h
+        · exact fxDel_inv _ _ h
+      refine ⟨(ih _ h1).1, fun hp => (ih _ h1).2 ?_⟩
+      unfold fxStep; split
+      · exact fxSet_pos _ _ hp
+      · exact fxDel_pos _ _ hp
+  have := key script (fxInit l) (fxInit_inv l)
+  exact ⟨this.1.1, this.1.2, fun hl => this.2 (fxInit_pos l hl)⟩
+
+example : (([(true, 4), (false, 2), (true, 5)] : List (Bool × Nat)).foldl fxStep (fxInit [(1, 1), (2, 1), (1, 3), (3, 0)]))
+    = [(1, 3), (3, 0), (4, 2), (5, 1)] := by decide +kernel
+
 end C08
